@@ -2,6 +2,7 @@ package rules
 
 import (
 	"go/ast"
+	"go/token"
 	"go/types"
 	"strings"
 
@@ -275,6 +276,88 @@ func (e *Env) RDeclRemoval() {
 				return true
 			})
 		}
+		return true
+	})
+	// a final pass that tests the marks must keep something: a loop over File.Decls with a mark
+	// test and no append of the element drops every declaration of the file
+	ast.Inspect(fd.Body, func(nd ast.Node) bool {
+		rs, ok := nd.(*ast.RangeStmt)
+		if !ok || !strings.HasSuffix(types.ExprString(rs.X), ".Decls") || rs.Value == nil {
+			return true
+		}
+		tests, keeps := false, false
+		ast.Inspect(rs.Body, func(m ast.Node) bool {
+			if ix, ok := m.(*ast.IndexExpr); ok && isMarkMap(ix.X) {
+				tests = true
+			}
+			if call, ok := m.(*ast.CallExpr); ok && len(call.Args) == 2 {
+				if id, ok := call.Fun.(*ast.Ident); ok && id.Name == "append" && types.ExprString(call.Args[1]) == types.ExprString(rs.Value) {
+					keeps = true
+				}
+			}
+			return true
+		})
+		if tests {
+			e.Run.Check("R-ADD", "updateImports: the final pass hands the unmarked declarations on", e.Prog.Pos(rs.Pos()), keeps,
+				"the loop over File.Decls tests the deletion marks but appends no declaration to the new list: as soon as one import declaration is emptied, the file loses all its declarations")
+		}
+		return true
+	})
+	// a spec that is created here gets its alias: either in its literal (Name: …aliases[path]…) or by a
+	// store X.Name = … aliases[…] … on the variable it was assigned to
+	ast.Inspect(fd.Body, func(nd ast.Node) bool {
+		as, ok := nd.(*ast.AssignStmt)
+		if !ok || as.Tok != token.DEFINE || len(as.Lhs) != 1 || len(as.Rhs) != 1 {
+			return true
+		}
+		u, ok := ast.Unparen(as.Rhs[0]).(*ast.UnaryExpr)
+		if !ok || u.Op != token.AND {
+			return true
+		}
+		lit, ok := ast.Unparen(u.X).(*ast.CompositeLit)
+		if !ok {
+			return true
+		}
+		if _, tn := namedOf(info.TypeOf(lit)); tn != "ImportSpec" {
+			return true
+		}
+		v := info.Defs[as.Lhs[0].(*ast.Ident)]
+		mentionsAlias := func(n ast.Node) bool {
+			f := false
+			ast.Inspect(n, func(m ast.Node) bool {
+				if ix, ok := m.(*ast.IndexExpr); ok && types.ExprString(ix.X) == "aliases" {
+					f = true
+				}
+				// a local that was defined from aliases[…] (`if alias := aliases[path]; alias != ""`)
+				if ex, ok := m.(ast.Expr); ok && !f {
+					if id, ok := ex.(*ast.Ident); ok && strings.Contains(c.ExprStr(id), "aliases[") {
+						f = true
+					}
+				}
+				return true
+			})
+			return f
+		}
+		named := false
+		for _, el := range lit.Elts {
+			if kv, ok := el.(*ast.KeyValueExpr); ok && types.ExprString(kv.Key) == "Name" && mentionsAlias(kv.Value) {
+				named = true
+			}
+		}
+		ast.Inspect(fd.Body, func(m ast.Node) bool {
+			st, ok := m.(*ast.AssignStmt)
+			if !ok || len(st.Lhs) != 1 || len(st.Rhs) != 1 {
+				return true
+			}
+			if se, ok := ast.Unparen(st.Lhs[0]).(*ast.SelectorExpr); ok && se.Sel.Name == "Name" {
+				if id, ok := se.X.(*ast.Ident); ok && info.Uses[id] == v && mentionsAlias(st.Rhs[0]) {
+					named = true
+				}
+			}
+			return true
+		})
+		e.Run.Check("R-ALIAS", "updateImports: an import spec that is created gets the alias chosen for its path", e.Prog.Pos(as.Pos()), named,
+			"the new spec is never given a name from aliases[…]: when its package name clashes with another import's, the code is printed with the alias and the import without it")
 		return true
 	})
 	e.Run.Analysed("R-ADD deletion marks", nMarks)
